@@ -160,6 +160,17 @@ class World:
             if now != self.snaps[i]:
                 changed.append(i + 1)
                 self.snaps[i] = now          # report the step that caused it, once
+        # what a schema does must not depend on how (or from which already used parts) it was
+        # built: compare the newest schema with an equal one rebuilt from scratch
+        if new is not None and not changed:
+            ok, a = try_abs(am.a_schema, new)
+            if ok:
+                try:
+                    fresh = am.g_schema(a[0])
+                    if snapshot(fresh) != self.snaps[-1]:
+                        changed.append(len(self.pool))
+                except Exception:
+                    pass
         heap_changed = [] if kind == "mutate" else [i + 1 for i in range(len(self.heap)) if not self.same_as_shadow(i)]
         return out, changed, heap_changed
 
